@@ -77,6 +77,19 @@ def showGroup (g : Group) : String :=
 
 def showGroups (gs : List Group) : String := " ".intercalate (toString gs.length :: gs.map showGroup)
 
+def pIvKind : P IvKind := do
+  match (← tok) with
+  | "f" => pure .feature
+  | "t" => pure .transcript
+  | "c" => pure .cds
+  | t => throw s!"ivkind? {t}"
+
+def pOptDict : P (Option QDict) := do
+  match (← tok) with
+  | "N" => pure none
+  | "P" => do let d ← pDict; pure (some d)
+  | t => throw s!"optdict? {t}"
+
 def pArrow : P Unit := do
   match (← tok) with
   | "=>" => pure ()
@@ -109,6 +122,12 @@ def ops : List (String × Op) := [
                         | "None" :: ts => set ts; pure none
                         | _ => do let d ← pDict; pure (some d))
       if !keysDistinct q then pure "n/a" else pure (verdict (okFilterSort q r))),
+  -- export_qualifiers(parent_qualifiers) of a feature / transcript / CDS interval: own ∪ parent ∪ identifiers
+  ("xq", do
+      let k ← pIvKind; let own ← pDict; let par ← pOptDict; let attrs ← pList pOptStr; pArrow
+      let a ← pAns pDict
+      let parOk := match par with | some p => keysDistinct p | none => true
+      if !(keysDistinct own && parOk) then pure "n/a" else pure (verdict (okExport k own par attrs a))),
   -- gene biotype of one locus from its transcript feature types (mRNA ↦ protein_coding, else the type's own name)
   ("gbiotype", do
       let tys ← pList pStr; pArrow
